@@ -423,6 +423,7 @@ type State struct {
 	Unsupported string
 	LockSnaps []lockSnap
 	LoopSnaps []loopSnap
+	CancelFns map[string]*Term
 	FreshList []*Term
 	LiveIters []*RangeIter
 	Epoch   int // bumped when "everything" is havocked, so later-materialised families are fresh too
@@ -447,6 +448,7 @@ func (s *State) Clone() *State {
 		Epoch:     s.Epoch,
 		LockSnaps: s.LockSnaps[:len(s.LockSnaps):len(s.LockSnaps)],
 		LoopSnaps: s.LoopSnaps[:len(s.LoopSnaps):len(s.LoopSnaps)],
+		CancelFns: s.CancelFns,
 		FreshList: s.FreshList[:len(s.FreshList):len(s.FreshList)],
 		LiveIters: s.LiveIters[:len(s.LiveIters):len(s.LiveIters)],
 	}
@@ -492,6 +494,25 @@ func (s *State) Assume(t *Term) {
 
 var heapSorts = map[string]Sort{}
 
+// heapRefFam: heap families whose elements are references (pointers, maps, channels, slice bases, ...)
+var heapRefFam = map[string]bool{}
+
+func noteRefLeaf(key string, l leafInfo) {
+	if l.T == nil {
+		if strings.HasSuffix(l.Path, "base") {
+			heapRefFam[key] = true
+		}
+		return
+	}
+	if isRefType(l.T) {
+		if _, isIface := l.T.Underlying().(*types.Interface); !isIface {
+			if _, isFn := l.T.Underlying().(*types.Signature); !isFn {
+				heapRefFam[key] = true
+			}
+		}
+	}
+}
+
 func (s *State) heapGet(name string, sort Sort) *Term {
 	if t, ok := s.Heap[name]; ok {
 		return t
@@ -524,6 +545,7 @@ func (s *State) loadPath(root *types.Named, ref *Term, path string, t types.Type
 	leaves(t, path, &ls)
 	ts := make([]*Term, len(ls))
 	for i, l := range ls {
+		noteRefLeaf(heapKeyField(root, l.Path), l)
 		h := s.heapGet(heapKeyField(root, l.Path), ArrSort(SInt, l.Sort))
 		ts[i] = Select(h, ref)
 	}
